@@ -55,9 +55,11 @@ pub use formulas_lp::*;
 pub mod pair {
 use super::*;
 #[allow(unused_imports)] use super::shim::Decimal;
+broadcast use {axiom_string_eq_spec, axiom_string_obeys_eq, axiom_to_string_string, group_q_errors, vstd::arithmetic::mul::lemma_mul_is_commutative};
 //%include haloswap_pairmsg.rs
 //%include pair_state.rs
 //%include pair_assert.rs
+//%include pair_provide.rs
 //%include pair_contract.rs
 }
 } // verus!
